@@ -67,6 +67,12 @@ INSTR_FORMS = [  # (text template, near, size) ; {L} = a label
     ("MV A, [(0x10)]", False, 3), ("MV A, [(0x10)+0x02]", False, 4), ("MV [(0x20)], A", False, 3), ("MV [(0x20)-0x01], A", False, 4),
     ("MV (0x30), [X]", False, 3), ("MV (0x30), [X+0x05]", False, 4), ("MV [Y], (0x31)", False, 3), ("MV [Y+0x06], (0x31)", False, 4),
 ]
+# a symbol as the DISPLACEMENT inside a compound operand ({D} = the small label DSP that such programs define first): the label
+# reference sits one level below the operand list
+DISP_FORMS = [
+    ("MV A, [X+{D}]", False, 3), ("MV [Y-{D}], BA", False, 3), ("MV (0x10), [X+{D}]", False, 4), ("MV A, [(0x10)+{D}]", False, 4),
+    ("MV (0x20), [(0x10)-{D}]", False, 5), ("MVW [U+{D}], (0x12)", False, 4),
+]
 
 
 _FORM_SIZE: Dict[str, int] = {}
@@ -75,7 +81,7 @@ _FORM_SIZE: Dict[str, int] = {}
 def form_size(tmpl: str, default: int) -> int:
     """actual encoded size of an instruction form (the assembler may add an addressing prefix)"""
     if tmpl not in _FORM_SIZE:
-        b = alone(tmpl.replace("{L}", "0x0"), 0x100)
+        b = alone(tmpl.replace("{L}", "0x0").replace("{D}", "0x3"), 0x100)
         _FORM_SIZE[tmpl] = len(b) if b else default
     return _FORM_SIZE[tmpl]
 
@@ -97,6 +103,15 @@ def random_program(rnd: random.Random, nstmt: int) -> Tuple[List[Dict[str, Any]]
     defined_in_bss: List[str] = []
     pending_label = False
     force_near = False
+    has_dsp = rnd.random() < 0.35
+    if has_dsp:
+        for _ in range(rnd.randint(1, 9)):
+            prog.append({"k": "instr", "size": 1, "near": False, "ref": ""})
+            lines.append("NOP")
+            ptr["code"] += 1
+        prog.append({"k": "label", "lab": "DSP"})
+        lines.append("DSP:")
+        hi["code"] = ptr["code"]
     for i in range(nstmt):
         if force_near and prog and prog[-1]["k"] != "org":
             force_near = False
@@ -151,12 +166,14 @@ def random_program(rnd: random.Random, nstmt: int) -> Tuple[List[Dict[str, Any]]
             ptr[sec] += n
         else:
             tmpl, near, size = rnd.choice(INSTR_FORMS)
+            if has_dsp and not force_near and rnd.random() < 0.25:
+                tmpl, near, size = rnd.choice(DISP_FORMS)
             if force_near:
                 tmpl, near, size = rnd.choice([f for f in INSTR_FORMS if f[1]])
             size = form_size(tmpl, size)
-            lab = rnd.choice(labels) if "{L}" in tmpl else ""
+            lab = rnd.choice(labels) if "{L}" in tmpl else ("DSP" if "{D}" in tmpl else "")
             prog.append({"k": "instr", "size": size, "near": bool(near and lab), "ref": lab})
-            lines.append(tmpl.replace("{L}", lab))
+            lines.append(tmpl.replace("{L}", lab).replace("{D}", lab))
             ptr[sec] += size
         hi[sec] = max(hi[sec], ptr[sec])
     for lab in to_define:          # labels not placed yet go to the end
